@@ -1022,7 +1022,7 @@ def dispatch(ctx, world):
             if is_call_to(r, "autograd.core.sum_outgrads") and len(r.args) == 1 and r.args[0].op == "comp":
                 c = r.args[0]
                 z = c.src
-                zok = is_call_to(z, "builtins.zip") and len(z.args) == 2 and z.args[0] is an and z.args[1] is gs
+                zok = is_call_to(z, "builtins.zip") and len(z.args) == 2 and z.args[0] is an and z.args[1] is gs and not c.conds
                 el = strip_seq(c.elt)
                 e_an = lambda t: t.op == "sub" and t.obj.op == "iterelem" and t.idx.op == "const" and t.idx.value == 0
                 e_g = lambda t: t.op == "sub" and t.obj.op == "iterelem" and t.idx.op == "const" and t.idx.value == 1
